@@ -81,30 +81,88 @@ func mergeParallel(w *load.World, c *core.Collector, f *ssa.Function, props []st
 								}
 							}
 						}
+						// a helper that builds the merged list, sorts it and returns it
+						if isSearchResultSlice(call.Type()) {
+							for _, gb := range g.Blocks {
+								for _, gi := range gb.Instrs {
+									ic, ok := gi.(*ssa.Call)
+									if !ok || ic.Call.StaticCallee() == nil || !(strings.HasPrefix(ic.Call.StaticCallee().String(), "slices.SortFunc") || strings.HasPrefix(ic.Call.StaticCallee().String(), "slices.SortStableFunc")) {
+										continue
+									}
+									if !isSearchResultSlice(ic.Call.Args[0].Type()) {
+										continue
+									}
+									// the sort precedes every return of a non-empty list
+									okAll := true
+									for _, rb := range g.Blocks {
+										if r, isRet := rb.Instrs[len(rb.Instrs)-1].(*ssa.Return); isRet && len(r.Results) > 0 && !ssax.IsNilConst(r.Results[0]) && !ssax.Precedes(ic, r) {
+											okAll = false
+										}
+									}
+									if okAll {
+										sortCall, sortInner = call, ic
+									}
+								}
+							}
+						}
 					}
 				}
 			}
 		}
 	}
-	var disjTrue, disjFalse []ssax.Edge
-	for _, b := range f.Blocks {
-		ifi, ok := b.Instrs[len(b.Instrs)-1].(*ssa.If)
-		if !ok {
-			continue
+	disjTrue, disjFalse := flagEdges(f, disj, false)
+	if or == nil || and == nil {
+		// the choice may live in a helper that receives the flag
+		for _, b := range f.Blocks {
+			for _, in := range b.Instrs {
+				h := ssax.StaticModuleCallee(in)
+				if h == nil || len(h.Blocks) == 0 {
+					continue
+				}
+				var hp *ssa.Parameter
+				inverted := false
+				for i, a := range in.(ssa.CallInstruction).Common().Args {
+					if i >= len(h.Params) {
+						break
+					}
+					if a == ssa.Value(disj) {
+						hp = h.Params[i]
+					}
+					if u, ok := a.(*ssa.UnOp); ok && u.Op == token.NOT && u.X == ssa.Value(disj) {
+						hp, inverted = h.Params[i], true
+					}
+				}
+				if hp == nil {
+					continue
+				}
+				var hor, hand *ssa.Call
+				for _, hb := range h.Blocks {
+					for _, hin := range hb.Instrs {
+						if call, ok := hin.(*ssa.Call); ok {
+							if g := call.Call.StaticCallee(); g != nil {
+								switch {
+								case strings.HasSuffix(g.String(), "roaring64.FastOr") || strings.HasSuffix(g.String(), "roaring64.Or"):
+									hor = call
+								case strings.HasSuffix(g.String(), "roaring64.FastAnd") || strings.HasSuffix(g.String(), "roaring64.And"):
+									hand = call
+								}
+							}
+						}
+					}
+				}
+				if hor == nil || hand == nil {
+					continue
+				}
+				ht, hf := flagEdges(h, hp, inverted)
+				if onlyViaAny(ht, hor.Block()) && onlyViaAny(hf, hand.Block()) {
+					c.Add("MERGE", "set-algebra", core.OK, w.At(hor), "", props...)
+				} else {
+					c.Add("MERGE", "set-algebra", core.Violation, w.At(hor), "_or does not select the union of the sub-results, or _and not their intersection", props...)
+				}
+				or, and = hor, hand
+				goto algebraDone
+			}
 		}
-		cond, neg := ifi.Cond, false
-		if u, ok := cond.(*ssa.UnOp); ok && u.Op == token.NOT {
-			cond, neg = u.X, true
-		}
-		if cond != ssa.Value(disj) {
-			continue
-		}
-		t, e := 0, 1
-		if neg {
-			t, e = 1, 0
-		}
-		disjTrue = append(disjTrue, ssax.Edge{From: b, Succ: t})
-		disjFalse = append(disjFalse, ssax.Edge{From: b, Succ: e})
 	}
 	switch {
 	case or == nil || and == nil:
@@ -114,6 +172,7 @@ func mergeParallel(w *load.World, c *core.Collector, f *ssa.Function, props []st
 	default:
 		c.Add("MERGE", "set-algebra", core.Violation, w.At(or), "_or does not select the union of the sub-results, or _and not their intersection", props...)
 	}
+algebraDone:
 	// dedupe and gate: in the function that appends the merged results (a helper of this one after
 	// a refactoring), with the disjunction flag followed into it
 	orig := f
@@ -149,26 +208,7 @@ func mergeParallel(w *load.World, c *core.Collector, f *ssa.Function, props []st
 		}
 		if mp != nil {
 			f = m
-			disjTrue, disjFalse = nil, nil
-			for _, b := range f.Blocks {
-				ifi, ok := b.Instrs[len(b.Instrs)-1].(*ssa.If)
-				if !ok {
-					continue
-				}
-				cond, neg := ifi.Cond, false
-				if u, ok := cond.(*ssa.UnOp); ok && u.Op == token.NOT {
-					cond, neg = u.X, true
-				}
-				if cond != ssa.Value(mp) {
-					continue
-				}
-				t, e := 0, 1
-				if neg != inverted {
-					t, e = 1, 0
-				}
-				disjTrue = append(disjTrue, ssax.Edge{From: b, Succ: t})
-				disjFalse = append(disjFalse, ssax.Edge{From: b, Succ: e})
-			}
+			disjTrue, disjFalse = flagEdges(f, mp, inverted)
 		}
 	}
 	writes := resultWrites(f)
@@ -331,7 +371,7 @@ func mergeParallel(w *load.World, c *core.Collector, f *ssa.Function, props []st
 			if one, isC := ssax.ConstInt(bo.Y); isC && one == 1 {
 				if lc, ok := bo.X.(*ssa.Call); ok {
 					if bi, ok := lc.Call.Value.(*ssa.Builtin); ok && bi.Name() == "len" {
-						if _, isParam := lc.Call.Args[0].(*ssa.Parameter); isParam && ssax.OnlyViaEdge(bb, 0, b) {
+						if _, isParam := peelToParam(lc.Call.Args[0]).(*ssa.Parameter); isParam && ssax.OnlyViaEdge(bb, 0, b) {
 							single = true
 						}
 					}
@@ -471,6 +511,43 @@ func mergeSortKeys(w *load.World, c *core.Collector, props []string) {
 		return
 	}
 	pa, pb := cmpFn.Params[0], cmpFn.Params[1]
+	// the per-key decision may live in a helper the comparator calls with its two operands
+	hasCompare := func(g *ssa.Function) bool {
+		for _, b := range g.Blocks {
+			for _, in := range b.Instrs {
+				if call, ok := in.(*ssa.Call); ok {
+					if h := call.Call.StaticCallee(); h != nil && h.Name() == "CompareAny" {
+						return true
+					}
+				}
+			}
+		}
+		return false
+	}
+	if home := homeOf(cmpFn, hasCompare); home != cmpFn {
+		var ha, hb *ssa.Parameter
+		for _, b := range cmpFn.Blocks {
+			for _, in := range b.Instrs {
+				if ssax.StaticModuleCallee(in) != home {
+					continue
+				}
+				for i, a := range in.(ssa.CallInstruction).Common().Args {
+					if i >= len(home.Params) {
+						break
+					}
+					switch peelToParam(a) {
+					case ssa.Value(pa):
+						ha = home.Params[i]
+					case ssa.Value(pb):
+						hb = home.Params[i]
+					}
+				}
+			}
+		}
+		if ha != nil && hb != nil {
+			cmpFn, pa, pb = home, ha, hb
+		}
+	}
 	// the two "present" flags: second results of the nested-property accessor applied to a's and b's data
 	var aok, bok ssa.Value
 	for _, b := range cmpFn.Blocks {
@@ -637,4 +714,60 @@ func mergeSortKeys(w *load.World, c *core.Collector, props []string) {
 			c.Add("MERGE", "sort-keys:"+name, core.Violation, w.Position(cmpFn.Pos()), "for an "+name+" key the two values are not compared in the order that key asks for", props...)
 		}
 	}
+}
+
+// flagEdges: the edges of fn on which the boolean flag is true resp. false. The
+// flag may be tested directly, negated, compared with a constant (`switch flag
+// { case true: ...`), or through a local that holds its negation; inverted says
+// that flag carries the negation of the property asked for.
+func flagEdges(fn *ssa.Function, flag ssa.Value, inverted bool) (onTrue, onFalse []ssax.Edge) {
+	var meaning func(v ssa.Value, depth int) (neg bool, ok bool)
+	meaning = func(v ssa.Value, depth int) (bool, bool) {
+		if depth > 4 {
+			return false, false
+		}
+		if v == flag {
+			return false, true
+		}
+		switch x := v.(type) {
+		case *ssa.UnOp:
+			if x.Op == token.NOT {
+				n, ok := meaning(x.X, depth+1)
+				return !n, ok
+			}
+		case *ssa.BinOp:
+			if x.Op == token.EQL || x.Op == token.NEQ {
+				for _, pr := range [][2]ssa.Value{{x.X, x.Y}, {x.Y, x.X}} {
+					if cb, isC := ssax.ConstBool(pr[1]); isC {
+						if n, ok := meaning(pr[0], depth+1); ok {
+							// (v == true) keeps, (v == false) negates; NEQ flips
+							neg := n != !cb
+							if x.Op == token.NEQ {
+								neg = !neg
+							}
+							return neg, true
+						}
+					}
+				}
+			}
+		}
+		return false, false
+	}
+	for _, b := range fn.Blocks {
+		ifi, ok := b.Instrs[len(b.Instrs)-1].(*ssa.If)
+		if !ok {
+			continue
+		}
+		neg, ok := meaning(ifi.Cond, 0)
+		if !ok {
+			continue
+		}
+		t, e := 0, 1
+		if neg != inverted {
+			t, e = 1, 0
+		}
+		onTrue = append(onTrue, ssax.Edge{From: b, Succ: t})
+		onFalse = append(onFalse, ssax.Edge{From: b, Succ: e})
+	}
+	return
 }
